@@ -149,28 +149,113 @@ func fieldMatches(fs j5schema.FieldSchema, fd protoreflect.FieldDescriptor, item
 	return fmt.Sprintf("unknown schema %T", fs)
 }
 
+// viol is one violated clause with what a known-finding signature may be bound to:
+// Keys are the schema names (package/name) the failure involves (the schema being
+// checked, the schemas its property refers to, the flattened schemas on the way);
+// Kind says, for a duplicate name, which two properties carry it.
+type viol struct {
+	Text string
+	Keys []string
+	Kind string
+}
+
+func refKey(r *j5schema.RefSchema) string {
+	if r == nil || r.Package == nil {
+		return ""
+	}
+	return r.Package.Name + "/" + r.Schema
+}
+
+// refKeys: the schema names a field schema refers to (through array items and map values)
+func refKeys(fs j5schema.FieldSchema) []string {
+	switch t := fs.(type) {
+	case *j5schema.ArrayField:
+		return refKeys(t.Schema)
+	case *j5schema.MapField:
+		return refKeys(t.Schema)
+	case *j5schema.EnumField:
+		return []string{refKey(t.Ref)}
+	case *j5schema.ObjectField:
+		return []string{refKey(t.Ref)}
+	case *j5schema.OneofField:
+		return []string{refKey(t.Ref)}
+	}
+	return nil
+}
+
+// Duplicate property names have exactly two recorded causes. dupOneofVsField: the two
+// properties with that name are an exposed oneof of the message (no proto field of its own,
+// a real oneof of md carrying the schema name the property refers to) and a field of md.
+// Anything else ("other") is not a known finding.
+const (
+	dupOneofVsField = "oneof-vs-field"
+	dupFlatten      = "flatten"
+	dupOther        = "other"
+)
+
+func ownDupKind(props []*j5schema.ObjectProperty, name string, md protoreflect.MessageDescriptor) string {
+	var same []*j5schema.ObjectProperty
+	for _, p := range props {
+		if p.JSONName == name {
+			same = append(same, p)
+		}
+	}
+	if len(same) != 2 {
+		return dupOther
+	}
+	var exposed, field *j5schema.ObjectProperty
+	for _, p := range same {
+		if _, isOneof := p.Schema.(*j5schema.OneofField); isOneof && len(p.ProtoField) == 0 {
+			exposed = p
+		} else if len(p.ProtoField) == 1 {
+			field = p
+		}
+	}
+	if exposed == nil || field == nil {
+		return dupOther
+	}
+	if md != nil {
+		if md.Fields().ByNumber(field.ProtoField[0]) == nil {
+			return dupOther
+		}
+		want := refKey(exposed.Schema.(*j5schema.OneofField).Ref)
+		found := false
+		for i := 0; i < md.Oneofs().Len(); i++ {
+			if o := md.Oneofs().Get(i); !o.IsSynthetic() && joinSplit(o) == want {
+				found = true
+			}
+		}
+		if !found {
+			return dupOther
+		}
+	}
+	return dupOneofVsField
+}
+
 // checkProps evaluates "every property's proto field path resolves to a field of
 // the matching kind" and "property names are unique" for one property list.
-func checkProps(what string, props []*j5schema.ObjectProperty, md protoreflect.MessageDescriptor) []string {
-	var viol []string
-	seen := map[string]bool{}
+// names=false leaves the names to the caller (client properties: checkClientNames).
+func checkProps(what string, keys []string, props []*j5schema.ObjectProperty, md protoreflect.MessageDescriptor, names bool) []viol {
+	var out []viol
+	seen := map[string]int{}
 	for _, p := range props {
-		if seen[p.JSONName] {
-			viol = append(viol, fmt.Sprintf("names-unique: %s has two properties named %q", what, p.JSONName))
+		seen[p.JSONName]++
+		if names && seen[p.JSONName] == 2 {
+			out = append(out, viol{Text: fmt.Sprintf("names-unique: %s has two properties named %q", what, p.JSONName), Keys: keys, Kind: ownDupKind(props, p.JSONName, md)})
 		}
-		seen[p.JSONName] = true
+		pkeys := append(append([]string{}, keys...), refKeys(p.Schema)...)
 		if len(p.ProtoField) == 0 {
 			of, ok := p.Schema.(*j5schema.OneofField)
 			if !ok {
-				viol = append(viol, fmt.Sprintf("path-resolves: %s.%s has no proto field and is not an exposed oneof", what, p.JSONName))
+				out = append(out, viol{Text: fmt.Sprintf("path-resolves: %s.%s has no proto field and is not an exposed oneof", what, p.JSONName), Keys: pkeys})
 				continue
 			}
 			os, ok := of.Ref.To.(*j5schema.OneofSchema)
 			if !ok {
-				viol = append(viol, fmt.Sprintf("path-resolves: %s.%s exposed oneof refers to %T", what, p.JSONName, of.Ref.To))
+				out = append(out, viol{Text: fmt.Sprintf("path-resolves: %s.%s exposed oneof refers to %T", what, p.JSONName, of.Ref.To), Keys: pkeys})
 				continue
 			}
-			viol = append(viol, checkProps(what+"."+p.JSONName, os.Properties, md)...)
+			out = append(out, checkProps(what+"."+p.JSONName, pkeys, os.Properties, md, true)...)
 			continue
 		}
 		walk := md
@@ -194,22 +279,121 @@ func checkProps(what string, props []*j5schema.ObjectProperty, md protoreflect.M
 			bad = fieldMatches(p.Schema, fd, false)
 		}
 		if bad != "" {
-			viol = append(viol, fmt.Sprintf("path-resolves: %s.%s: %s", what, p.JSONName, bad))
+			out = append(out, viol{Text: fmt.Sprintf("path-resolves: %s.%s: %s", what, p.JSONName, bad), Keys: pkeys})
 		}
 	}
-	return viol
+	return out
 }
 
-func checkRoot(ix *descIndex, pkg, name string, root j5schema.RootSchema) []string {
+// cprop is one client property as the flatten expansion of the reader's own objects yields it:
+// the flatten site is the proto path of the enclosing flattened fields ("" = the object itself).
+type cprop struct {
+	name  string
+	site  string
+	owner *j5schema.ObjectSchema
+}
+
+// expandClient re-derives the client properties of obj from the own property lists (what
+// ObjectSchema.ClientProperties does), recording where each comes from. via collects the schema
+// names of the flattened objects.
+func expandClient(obj *j5schema.ObjectSchema, prefix string, depth int, via *[]string) []cprop {
+	var out []cprop
+	for _, p := range obj.Properties {
+		if of, ok := p.Schema.(*j5schema.ObjectField); ok && of.Flatten && depth < 40 {
+			*via = append(*via, refKey(of.Ref))
+			if child, ok := of.Ref.To.(*j5schema.ObjectSchema); ok {
+				out = append(out, expandClient(child, prefix+fmt.Sprint(p.ProtoField), depth+1, via)...)
+				continue
+			}
+		}
+		out = append(out, cprop{name: p.JSONName, site: prefix, owner: obj})
+	}
+	return out
+}
+
+// checkClientNames: duplicate names among the client properties, each with its cause.
+// dupFlatten: the properties with that name come from different flatten sites, once per site
+// (a flattened child against a sibling, or two flattened children): the recorded finding.
+// A name twice within ONE site is that object's own duplicate (ownDupKind decides);
+// a property list that is not the flatten expansion at all is dupOther.
+func checkClientNames(what string, keys []string, obj *j5schema.ObjectSchema, props []*j5schema.ObjectProperty, md protoreflect.MessageDescriptor) ([]viol, []string) {
+	var via []string
+	exp := expandClient(obj, "", 0, &via)
+	sameList := len(exp) == len(props)
+	if sameList {
+		for i := range exp {
+			if exp[i].name != props[i].JSONName {
+				sameList = false
+			}
+		}
+	}
+	var out []viol
+	var explained []string
+	count := map[string]int{}
+	for _, p := range props {
+		count[p.JSONName]++
+		if count[p.JSONName] != 2 {
+			continue
+		}
+		name := p.JSONName
+		kind := dupOther
+		if sameList {
+			sites := map[string]int{}
+			var owners []*j5schema.ObjectSchema
+			for _, c := range exp {
+				if c.name == name {
+					sites[c.site]++
+					if sites[c.site] == 2 {
+						owners = append(owners, c.owner)
+					}
+				}
+			}
+			// a name twice at one site must be that object's exposed-oneof / field pair; the name at
+			// several sites is the flatten finding (both can combine)
+			ownOK := true
+			for _, ow := range owners {
+				var omd protoreflect.MessageDescriptor
+				if ow == obj {
+					omd = md
+				}
+				if ownDupKind(ow.Properties, name, omd) != dupOneofVsField {
+					ownOK = false
+				}
+			}
+			switch {
+			case !ownOK:
+				kind = dupOther
+			case len(sites) >= 2:
+				kind = dupFlatten
+			case len(owners) == 1:
+				kind = dupOneofVsField
+			}
+		}
+		out = append(out, viol{Text: fmt.Sprintf("names-unique: %s has two properties named %q", what, name), Keys: append(append([]string{}, keys...), via...), Kind: kind})
+		explained = append(explained, kind+":"+name)
+	}
+	return out, explained
+}
+
+func (o *Obs) addViol(vs []viol) {
+	for _, v := range vs {
+		o.Viol = append(o.Viol, v.Text)
+		o.ViolKeys = append(o.ViolKeys, v.Keys)
+		o.ViolKind = append(o.ViolKind, v.Kind)
+	}
+}
+
+func checkRoot(ix *descIndex, pkg, name string, root j5schema.RootSchema) []viol {
+	keys := []string{pkg + "/" + name}
 	switch t := root.(type) {
 	case *j5schema.ObjectSchema:
 		mds := ix.byName[pkg+"/"+name]
 		if len(mds) == 0 {
-			return []string{fmt.Sprintf("path-resolves: no message for object schema %s.%s", pkg, name)}
+			return []viol{{Text: fmt.Sprintf("path-resolves: no message for object schema %s.%s", pkg, name), Keys: keys}}
 		}
-		best := []string(nil)
+		best := []viol(nil)
 		for i, md := range mds {
-			v := checkProps(pkg+"."+name, t.Properties, md)
+			v := checkProps(pkg+"."+name, keys, t.Properties, md, true)
 			if i == 0 || len(v) < len(best) {
 				best = v
 			}
@@ -218,11 +402,11 @@ func checkRoot(ix *descIndex, pkg, name string, root j5schema.RootSchema) []stri
 	case *j5schema.OneofSchema:
 		mds := append(append([]protoreflect.MessageDescriptor{}, ix.byName[pkg+"/"+name]...), ix.byName["oneof:"+pkg+"/"+name]...)
 		if len(mds) == 0 {
-			return []string{fmt.Sprintf("path-resolves: no message for oneof schema %s.%s", pkg, name)}
+			return []viol{{Text: fmt.Sprintf("path-resolves: no message for oneof schema %s.%s", pkg, name), Keys: keys}}
 		}
-		best := []string(nil)
+		best := []viol(nil)
 		for i, md := range mds {
-			v := checkProps(pkg+"."+name, t.Properties, md)
+			v := checkProps(pkg+"."+name, keys, t.Properties, md, true)
 			if i == 0 || len(v) < len(best) {
 				best = v
 			}
@@ -232,8 +416,8 @@ func checkRoot(ix *descIndex, pkg, name string, root j5schema.RootSchema) []stri
 	return nil
 }
 
-func checkSet(ix *descIndex, ss *j5schema.SchemaSet) []string {
-	var viol []string
+func checkSet(ix *descIndex, ss *j5schema.SchemaSet) []viol {
+	var viol []viol
 	var pkgs []string
 	for n := range ss.Packages {
 		pkgs = append(pkgs, n)
@@ -249,7 +433,7 @@ func checkSet(ix *descIndex, ss *j5schema.SchemaSet) []string {
 		for _, n := range names {
 			ref := pkg.Schemas[n]
 			if ref.To == nil {
-				viol = append(viol, fmt.Sprintf("unlinked: %s.%s has no schema after a successful build", pn, n))
+				viol = append(viol, viol0(fmt.Sprintf("unlinked: %s.%s has no schema after a successful build", pn, n), pn+"/"+n))
 				continue
 			}
 			viol = append(viol, checkRoot(ix, pn, n, ref.To)...)
@@ -257,6 +441,8 @@ func checkSet(ix *descIndex, ss *j5schema.SchemaSet) []string {
 	}
 	return viol
 }
+
+func viol0(text string, keys ...string) viol { return viol{Text: text, Keys: keys} }
 
 func short(s string) string {
 	if len(s) > 300 {
@@ -304,7 +490,7 @@ func workC18(req *Request, set []byte) {
 				o.Extra = "dump: " + terr.Error()
 			}
 			o.Term = term
-			o.Viol = checkSet(ix, ss)
+			o.addViol(checkSet(ix, ss))
 		})
 	}
 
@@ -329,7 +515,7 @@ func workC18(req *Request, set []byte) {
 			}
 			o.Term = term
 			pkg, path := string(md.ParentFile().Package()), strings.SplitN(joinSplit(md), "/", 2)[1]
-			o.Viol = checkRoot(ix, pkg, path, r)
+			o.addViol(checkRoot(ix, pkg, path, r))
 		})
 		if req.dead("msg|" + full) {
 			continue // building this schema kills the process: nothing further to try on it
@@ -347,7 +533,12 @@ func workC18(req *Request, set []byte) {
 		if obj, ok := root.(*j5schema.ObjectSchema); ok {
 			step(req, "client|"+full, func(o *Obs) {
 				props := obj.ClientProperties()
-				o.Viol = checkProps("client:"+full, props, md)
+				rootKey := joinSplit(md)
+				nameViol, _ := checkClientNames("client:"+full, []string{rootKey}, obj, props, md)
+				var via []string
+				expandClient(obj, "", 0, &via)
+				o.addViol(nameViol)
+				o.addViol(checkProps("client:"+full, append([]string{rootKey}, via...), props, md, false))
 				// the two flags as the model defines them: duplicate names among the client
 				// properties; any other violation (paths, kinds, members of exposed oneofs)
 				dup, unres := "nodup", "resolved"
@@ -395,6 +586,23 @@ func workC18(req *Request, set []byte) {
 		})
 		step(req, "codec|"+full, func(o *Obs) {
 			c := j5codec.NewCodec(j5codec.WithProtoToAny())
+			// duplicate property names of this type with their cause ("flatten:id", "oneof-vs-field:fooBar"):
+			// what a "field ... is already set" decode failure may be attributed to
+			switch rt := root.(type) {
+			case *j5schema.ObjectSchema:
+				func() {
+					defer func() { _ = recover() }()
+					_, o.Names = checkClientNames("", nil, rt, rt.ClientProperties(), md)
+				}()
+			case *j5schema.OneofSchema:
+				cnt := map[string]int{}
+				for _, p := range rt.Properties {
+					cnt[p.JSONName]++
+					if cnt[p.JSONName] == 2 {
+						o.Names = append(o.Names, ownDupKind(rt.Properties, p.JSONName, nil)+":"+p.JSONName)
+					}
+				}
+			}
 			sub := func(f func() error) {
 				class, msg, site := guard(f)
 				o.Sub = append(o.Sub, class)
